@@ -26,8 +26,14 @@ pub struct DestOp {
 pub struct SimDest {
     pub data: Vec<u8>,
     pub pre: Vec<u8>,
+    /// absolute position, as the writer sees it
     pub pos: u64,
+    /// start position relative to `origin` (index into `data` / `pre`)
     pub start: u64,
+    /// absolute offset of `data[0]`
+    pub origin: u64,
+    /// accepted writes that touched bytes below `origin`: (absolute position, length)
+    pub below_origin: Vec<(u64, u64)>,
     pub ops: Vec<DestOp>,
     pub plan: DestPlan,
     pub opn: u32,
@@ -48,8 +54,10 @@ impl SimDest {
         SimDest {
             data: pre.clone(),
             pre,
-            pos: plan.start,
-            start: plan.start,
+            pos: plan.start.max(plan.origin),
+            start: plan.start.max(plan.origin) - plan.origin,
+            origin: plan.origin,
+            below_origin: Vec::new(),
             ops: Vec::new(),
             plan: plan.clone(),
             opn: 0,
@@ -125,12 +133,21 @@ impl Write for SimDest {
             None => Ok(accept),
         };
         if res.is_ok() && accept > 0 {
-            let end = self.pos as usize + accept;
-            if self.data.len() < end {
-                self.data.resize(end, 0);
+            if self.pos < self.origin {
+                // outside the recorded window (possible only when the window does not begin at 0)
+                self.below_origin.push((self.pos, accept as u64));
+            } else {
+                let rel = (self.pos - self.origin) as usize;
+                let end = rel + accept;
+                if end > (1 << 28) {
+                    panic!("simdest: write of {} bytes at {} is far outside the recorded window", accept, self.pos);
+                }
+                if self.data.len() < end {
+                    self.data.resize(end, 0);
+                }
+                self.data[rel..end].copy_from_slice(&buf[..accept]);
+                self.patches.push((n, rel as u64, buf[..accept].to_vec()));
             }
-            self.data[self.pos as usize..end].copy_from_slice(&buf[..accept]);
-            self.patches.push((n, self.pos, buf[..accept].to_vec()));
             self.pos += accept as u64;
         }
         self.ops.push(DestOp {
@@ -173,7 +190,7 @@ impl Seek for SimDest {
                 let np: i128 = match to {
                     SeekFrom::Start(p) => p as i128,
                     SeekFrom::Current(d) => self.pos as i128 + d as i128,
-                    SeekFrom::End(d) => self.data.len() as i128 + d as i128,
+                    SeekFrom::End(d) => self.origin as i128 + self.data.len() as i128 + d as i128,
                 };
                 if np < 0 || np > u64::MAX as i128 {
                     Err(io::Error::from_raw_os_error(22))
